@@ -124,7 +124,32 @@ func (ex *Exec) call(fr *Frame, st *State, x ssa.CallInstruction) Val {
 	if fv, ok := ex.get(fr, c.Value).(FuncV); ok {
 		return ex.callStatic(fr, st, fv.Fn, fv.Free, args, resT, x)
 	}
+	// a call of a function-typed parameter or captured variable: oncall rules
+	// may name it as call:NAME (e.g. call:mergeFn)
+	if name := dynCalleeName(c.Value); name != "" {
+		key := "call:" + name
+		var ptypes []types.Type
+		if sig, ok := c.Value.Type().Underlying().(*types.Signature); ok {
+			for i := 0; i < sig.Params().Len(); i++ {
+				ptypes = append(ptypes, sig.Params().At(i).Type())
+			}
+		}
+		ex.fireOnCallTyped(fr, st, key, args, ptypes, nil, x, resT, true)
+		res := ex.havocCall(fr, st, "dynamic call in "+fr.label, resT, false)
+		ex.fireOnCallTyped(fr, st, key, args, ptypes, res, x, resT, false)
+		return res
+	}
 	return ex.havocCall(fr, st, "dynamic call in "+fr.label, resT, false)
+}
+
+func dynCalleeName(v ssa.Value) string {
+	switch v := v.(type) {
+	case *ssa.Parameter:
+		return v.Name()
+	case *ssa.FreeVar:
+		return v.Name()
+	}
+	return ""
 }
 
 func (ex *Exec) havocCall(fr *Frame, st *State, what string, resT types.Type, pure bool) Val {
@@ -394,6 +419,7 @@ func (ex *Exec) applyContract(fr *Frame, st *State, ct *Contract, key string, na
 				t = ptypes[i]
 			}
 			env.vars[n] = TV{args[i], t}
+			env.vars[n+"0"] = TV{args[i], t} // the callee's entry value of the parameter
 			env.vars[fmt.Sprintf("arg%d", i)] = TV{args[i], t}
 		}
 	}
